@@ -180,10 +180,10 @@ func checkC09(c *Ctx, w *World) {
 		}
 	}
 	// (c) the waiter is reachable only from Pick after the non-empty snapshot guard
-	pcs := newCondSpace(pl.pick, recOf(ltAtom("snapshotNonEmpty", constIs(0), lenOfField("gcpPicker.scRefs"))), "snapshotNonEmpty")
+	pcs := newCondSpace(pl.pick, recOf(lenZeroAtom("snapshotEmpty", lenOfField("gcpPicker.scRefs"))), "snapshotEmpty")
 	guardOK := true
 	for _, call := range pl.callsIn(pl.pick, gai) {
-		if imp, _ := pcs.Implies(pcs.Reach(call), pcs.Atom("snapshotNonEmpty")); !imp {
+		if imp, _ := pcs.Implies(pcs.Reach(call), pcs.Not(pcs.Atom("snapshotEmpty"))); !imp {
 			guardOK = false
 		}
 	}
